@@ -255,6 +255,18 @@ func runC12(env *core.Env) {
 			id   string
 		}{"cli-2-pruned+result", fx.Store(), b})
 	}
+	{ // a small CLI-produced log whose lines are long and mostly multi-byte (titles and bodies in CJK and emoji): the
+		// truncations, bit flips and field replacements below then produce unparsable lines of > 160 bytes but < 160 runes
+		fx := NewFix(env, w0)
+		a := fx.NewTask(map[string]interface{}{"title": strings.Repeat("日本語の題名", 8), "body": strings.Repeat("本文です。\U0001F600", 12)})
+		fx.Set(a, map[string]interface{}{"title": strings.Repeat("改題後の題名", 9)})
+		fx.Must(core.R("", "--json", "claim", a, "--agent", strings.Repeat("担当者", 10)))
+		seeds = append(seeds, struct {
+			name string
+			st   core.Store
+			id   string
+		}{"cli-3-wide-text", fx.Store(), a})
+	}
 	{ // a hand-merged log: four epics and two tasks created at the same instant (equal sort keys)
 		l := newSynLog()
 		ts := l.tick()
